@@ -1,7 +1,7 @@
 """Sensitivity battery: does the check go red when the property is really broken?
 
 For every /verif/seeded/<id>/ (patch.diff + meta.json naming the property) a scratch
-git worktree of /repo's HEAD is created OUTSIDE /repo and /verif, the patch is applied
+copy of /repo's working-tree sources is made OUTSIDE /repo and /verif, the patch is applied
 there, the property's check is run against that tree (VERIF_REPO=<worktree>, evidence
 redirected to scratch), and the worktree is removed again.  /repo itself is never
 touched.  Results go to seeded/sensitivity_results.json; the exit status is 0 unless the
@@ -41,9 +41,10 @@ def run_one(sid: str, tier: str, base: Path) -> dict:
     out = {"id": sid, "property": prop, "tier": tier, "expect": "clean" if d.parent == BENIGN else "violation"}
     t0 = time.time()
     try:
-        subprocess.run(["git", "-C", "/repo", "worktree", "add", "--detach", "-q", str(wt), "HEAD"], check=True,
-                       capture_output=True)
-        ap = subprocess.run(["git", "-C", str(wt), "apply", str(d / "patch.diff")], capture_output=True, text=True)
+        # a plain copy of /repo's *working tree* sources (no git metadata of /repo is touched)
+        wt.mkdir(parents=True)
+        shutil.copytree(str(core.REPO / "src"), str(wt / "src"), ignore=shutil.ignore_patterns("__pycache__", "*.egg-info"))
+        ap = subprocess.run(["git", "apply", str(d / "patch.diff")], cwd=str(wt), capture_output=True, text=True)
         if ap.returncode != 0:
             out["error"] = "patch does not apply: " + ap.stderr[-300:]
             return out
@@ -62,7 +63,6 @@ def run_one(sid: str, tier: str, base: Path) -> dict:
         out["all_clean"] = all(r["rc"] == 0 for r in out["runs"])
         # clean control is implied by the registered check passing on /repo itself
     finally:
-        subprocess.run(["git", "-C", "/repo", "worktree", "remove", "--force", str(wt)], capture_output=True)
         shutil.rmtree(wt, ignore_errors=True)
         out["wall_s"] = round(time.time() - t0, 1)
     return out
@@ -94,7 +94,6 @@ def main(argv: list) -> int:
             sys.stdout.flush()
     finally:
         shutil.rmtree(base, ignore_errors=True)
-        subprocess.run(["git", "-C", "/repo", "worktree", "prune"], capture_output=True)
     path = SEEDED / "sensitivity_results.json"  # not under evidence/: that directory holds per-property evidence only
     merged = {}
     if path.exists():
